@@ -185,3 +185,12 @@ Proof.
   { induction cmds as [|c r IH]; intros sd st E; cbn [fold_left]; [exact E|]. apply IH. rewrite dstep_store, E. reflexivity. }
   apply G. reflexivity.
 Qed.
+
+(* commit / batch rollback / cleanup of a transaction drop its outgoing edges, whatever they answer *)
+Definition finishes (c : cmd) : option ts :=
+  match c with Commit _ s _ | Rollback _ s | Cleanup _ s _ => Some s | _ => None end.
+Theorem finish_clears_edges sd c s : finishes c = Some s -> d_get (snd (fst (dstep sd c))) s = [].
+Proof.
+  destruct sd as [st d]. destruct c; cbn [finishes]; try discriminate; intros E; inversion E; subst; cbn [dstep];
+    destruct (step st _) as [st' r0]; cbn [fst snd]; rewrite d_get_del, N.eqb_refl; reflexivity.
+Qed.
